@@ -65,6 +65,12 @@ CLAIMED = {
    design="5/C20",
    note="Trusted: VtParser.tla with its OscRawCap/Utf8On constants, TLC. 7-bit inputs only. The existing test-suite command does not build the non-default feature sets; the check does.",
    technique="TLA+ spec (VtParser with configuration constants) + TLC: four-way lockstep refinement check; per-configuration trace validation of recorded callbacks"),
+ "C09": dict(
+   level="model_checking",
+   text="The documented precedence chain is written as ColorChoice!Query; TLC checks the precedence theorems over the full cross product of 6144 configurations, with witness pairs showing each step decides something, and prints every configuration with the expected decision, the mode an AutoStream must report and every probe's value. A single-threaded harness process applies all 6144 configurations by mutating its environment one variable at a time (reflected Gray order, so a cached probe would be caught) and compares AutoStream::choice, AutoStream::auto(..).current_choice(), ColorChoice::global and the anstyle-query probes for Vec<u8>, File, Box<dyn Write> and a real terminal (slave side of a pty); COLORTERM x truecolor and the clap flag are enumerated separately.",
+   design="5/C09",
+   note="Trusted: ColorChoice.tla (the statement, word for word; probe conventions from no-color.org / bixense clicolors), TLC, openpty. Non-Windows platform. Exhaustive in both tiers.",
+   technique="TLA+ spec (ColorChoice) + TLC: theorems over the full configuration product; all TLC-enumerated configurations replayed into the real decision procedure"),
 }
 PENDING_REASON = "check not built yet in this revision of /verif (planned with the TLA+ specification, see DESIGN.md section 5); not claimed until its quick command exists"
 
